@@ -681,7 +681,25 @@ def verdictOf (sc : Script) (o : Obs) : String :=
           || (match o.resolvedAt with | some r => r ≤ tDrain | none => false))]
   verdict (base ++ shut)
 
+/-- `qlim <n> <m>`: `m > n` unary calls on one connection of a server with `concurrency_limit_per_connection(n)`,
+all received before the shutdown signal, `m - n` of them still waiting for a slot in the server's own limit layer
+when it fires (harness: c13_q.rs; seed C13i).  A call the server has received is an accepted call wherever inside
+the server it waits: every one of the `m` completes with its handler's answer and the serve future resolves.  (Tie
+only: the limit layer's queue is not in `Model/Shutdown`; the expected line is the property's demand on these
+numbers.) -/
+def handleQlim (n m : Nat) (obs : List String) : String × String :=
+  let model := [s!"started-before:{n}", s!"ok:{m}/{m}", s!"handlers:{m}", "resolved:1"]
+  (String.intercalate " " model,
+   verdict [("accepted-call-completes", obs.contains s!"ok:{m}/{m}" && obs.contains s!"handlers:{m}"),
+            ("shutdown-completes", obs.contains "resolved:1")])
+
 def handle (case obs : List String) : String × String :=
+  match case with
+  | ["qlim", n, m] =>
+    (match n.toNat?, m.toNat? with
+     | some n, some m => if 0 < n && n < m then handleQlim n m obs else bad
+     | _, _ => bad)
+  | _ =>
   match parseScript case with
   | none => bad
   | some sc =>
